@@ -326,13 +326,6 @@ fn run_history(cfg: Cfg, body: &[u8], reqs: &[Req]) -> X {
             Some([X::N(93), _, X::B(w)]) => w.clone(),
             _ => return last,
         };
-        // the server announced more bytes than it sent and closed the connection: what the server did, not trouble
-        if what.ends_with(b"closed inside the body") {
-            if let X::L(l) = &mut last {
-                l[0] = X::N(94);
-            }
-            return last;
-        }
         if !what.starts_with(b"TimedOut") {
             return last;
         }
@@ -362,9 +355,15 @@ fn run_history_once(cfg: Cfg, body: &[u8], reqs: &[Req]) -> X {
                 Ok(r) => {
                     // framing of a GET reply: exactly content-length bytes were read; of every reply: the header is there
                     if r.content_length.is_none() {
-                        return fail(93, i, "no content-length".into());
+                        return fail(94, i, "no content-length".into());
                     }
                     out.push(x_reply(&r))
+                }
+                // what the server sent is not a framed HTTP/1.1 response (stray bytes, e.g. a body after a HEAD reply; a
+                // connection closed inside a response): a result (94).  Everything else (time-outs, socket trouble) is
+                // harness trouble (93): retried, then counted as not executed.
+                Err(e) if matches!(e.kind(), std::io::ErrorKind::InvalidData | std::io::ErrorKind::UnexpectedEof) => {
+                    return fail(94, i, format!("{:?}: {}", e.kind(), e))
                 }
                 Err(e) => return fail(93, i, format!("{:?}: {}", e.kind(), e)),
             }
@@ -372,6 +371,7 @@ fn run_history_once(cfg: Cfg, body: &[u8], reqs: &[Req]) -> X {
         match client.exchange(0, b"/s", None, &[], 0).await {
             Ok(r) if r.status == 200 && r.body == SENTINEL && client.pending.is_empty() => {}
             Ok(r) => return fail(92, reqs.len(), format!("sentinel reply {} {:?}", r.status, String::from_utf8_lossy(&r.body))),
+            Err(e) if e.kind() == std::io::ErrorKind::TimedOut => return fail(93, reqs.len(), format!("TimedOut: sentinel: {e}")),
             Err(e) => return fail(92, reqs.len(), format!("sentinel {:?}: {}", e.kind(), e)),
         }
         X::ok(X::L(out))
